@@ -73,7 +73,7 @@ impl<'a> Reader<'a> {
     }
 
     pub fn bump(&mut self) {
-        if self.current != EOF {
+        if !self.is_eof() {
             self.current_buffer_byte_len += self.current.len_utf8();
             self.prev = self.current;
             self.current = self.next;
@@ -98,8 +98,10 @@ impl<'a> Reader<'a> {
         reader
     }
 
+    /// End of input is decided by position, not by the `EOF` sentinel character, so that a
+    /// literal `'\0'` inside the text is an ordinary character and never truncates the input.
     pub fn is_eof(&self) -> bool {
-        self.current == EOF
+        self.current_buffer_byte_pos + self.current_buffer_byte_len >= self.text.len()
     }
 
     pub fn is_start_of_line(&self) -> bool {
